@@ -1,7 +1,53 @@
 import Aqv.Base.Proto
-open Aqv Aqv.Proto
+import Aqv.Model.FeedSpec
+open Aqv Aqv.Proto Aqv.FeedSpec
 
-/-- stub driver for C19 (answers every case line with "bad-op"); replaced when the property is built. -/
-def handle (l : String) : String := let _ := l; "bad-op\tagree"
+/-
+  Model driver for C19.  Case lines:
+    tr <ev>*                       observed history of one scheduled run of the real event.Feed;  go output: ok | reject <clause>
+    st live=<ids> sc=<ids> ib=<ids>   internal state at quiescence (overlay accessor);           go output: ok | reject state
+  The driver judges the line with the executable Spec (`Aqv.FeedSpec.judge`) — the judgement never depends on which
+  schedule produced the history, and two runs are never compared.
+-/
+
+def parseNat? (s : String) : Option Nat := s.toNat?
+
+def parseEv (t : String) : Option GEv :=
+  if t == "hang" then some .hang
+  else
+    let tag := String.ofList (t.toList.take 2)
+    let rest := String.ofList (t.toList.drop 2)
+    match tag, rest.splitOn ":" with
+    | "sb", [a] => (parseNat? a).map .sb
+    | "se", [a] => (parseNat? a).map .se
+    | "cb", [a] => (parseNat? a).map .cb
+    | "ub", [a] => (parseNat? a).map .ub
+    | "ue", [a] => (parseNat? a).map .ue
+    | "em", [a] => (parseNat? a).map .em
+    | "ce", [a, b] => match parseNat? a, parseNat? b with | some x, some y => some (.ce x y) | _, _ => none
+    | "rv", [a, b] => match parseNat? a, parseNat? b with | some x, some y => some (.rv x y) | _, _ => none
+    | _, _ => none
+
+def parseIds (s : String) : Option (List Nat) :=
+  match s.splitOn "=" with
+  | [_, v] => if v == "" then some [] else (v.splitOn ",").mapM parseNat?
+  | _ => none
+
+def handle (l : String) : String :=
+  let (inp, go) := splitCase l
+  match fields inp with
+  | "tr" :: evs =>
+    match evs.mapM parseEv with
+    | none => "bad-op\tagree"
+    | some es =>
+      match judge es.toArray with
+      | none => verdict "ok" go true ""
+      | some why => verdict ("reject " ++ why) go false why
+  | ["st", a, b, c] =>
+    match parseIds a, parseIds b, parseIds c with
+    | some live, some sc, some ib =>
+      if judgeState live sc ib then verdict "ok" go true "" else verdict "reject state" go false "state"
+    | _, _, _ => "bad-op\tagree"
+  | _ => "bad-op\tagree"
 
 def main : IO Unit := runLines handle
